@@ -35,7 +35,7 @@ ASSUMPTIONS = [
     "every operation works on its own files, so a fix in operation j cannot legitimately change the input of operation k",
 ]
 CHAINS_ENABLED = True
-PROBES = ["shape:sweep-chain", "shape:after-failed-fix", "shape:plugin-dirs", "shape:dirty-chain", "dirty_chain_faults_fired", "shape:chain", "history_cli_multi_invocation", "history_api_reuse", "history_with_fault", "multi_file_op", "carrier_pair_same_group", "extension_toggled", "api_after_exception"]
+PROBES = ["shape:natural-failure-chain", "shape:sweep-chain", "shape:after-failed-fix", "shape:plugin-dirs", "shape:dirty-chain", "dirty_chain_faults_fired", "shape:chain", "history_cli_multi_invocation", "history_api_reuse", "history_with_fault", "multi_file_op", "carrier_pair_same_group", "extension_toggled", "api_after_exception"]
 
 
 
@@ -180,6 +180,14 @@ def chain_plan(tier):
         for start in range(0, len(followers), CHAIN_WIDTH):
             for phase in (("token", "line", "prov") if tier == "quick" else (("token", "line", "prov")[(a_index + start // CHAIN_WIDTH) % 3],)):
                 plan.append(("scan", a_name, followers[start : start + CHAIN_WIDTH], False, phase))
+    # natural failures: documents on which the pinned parser fails by itself, each in a
+    # different internal state (queued lines, registered definitions, collected pragmas)
+    for natural_name in sorted(carriers_module.NATURAL_PARSER_FAIL):
+        natural_followers = [n for n in carriers_only if docs[n].group in ("lrd", "pragma", "heading", "quote") or n in SWEEP_FOLLOWERS]
+        if tier != "quick":
+            natural_followers = carriers_only
+        for start in range(0, len(natural_followers), CHAIN_WIDTH):
+            plan.append(("scan", "@" + natural_name, natural_followers[start : start + CHAIN_WIDTH], False, "natural"))
     # "sweep" chains: a(t) b a(t+1) b ... - the i-th copy of the carrier is cut short at
     # its (t+i)-th token / line, always followed by the same follower, so that EVERY
     # dispatch ordinal of the carrier is the abort point once per follower (state that is
@@ -208,13 +216,15 @@ def _gen_chain(tier, index):
     if tier not in _PLAN_CACHE:
         _PLAN_CACHE[tier] = chain_plan(tier)
     mode, a_name, b_names, optional, dirty = _PLAN_CACHE[tier][index]
+    from .. import carriers as carriers_module
+
     docs = corpus.load()
     files, labels = {}, {}
     position = 0
     for b_name in b_names:
         for name in (a_name, b_name):
             path = "f%03d.md" % position
-            files[path] = docs[name].data
+            files[path] = carriers_module.NATURAL_PARSER_FAIL[name[1:]] if name.startswith("@") else docs[name].data
             labels[path] = name
             position += 1
     flags = list(ALL_OPTIONAL) if optional else []
@@ -237,6 +247,11 @@ def _gen_chain(tier, index):
         # token / line: exception at the last rule in dispatch order, after every
         # built-in rule has seen that token / line; prov: the parser itself fails from
         # inside its main loop, at a read of the document's middle line
+        if dirty == "natural":
+            # no injection: the a files fail by themselves; they are treated like faulted files
+            sc["shape"] = "natural-failure-chain"
+            sc["natural_files"] = [path for path in sorted(files) if labels[path] == a_name]
+            return sc
         sweep_start = None
         if isinstance(dirty, (tuple, list)):
             _, dirty, sweep_start = dirty
@@ -501,8 +516,8 @@ def evaluate(sc):
             stats["api_after_exception"] += 1
         if (got.get("api") or {}).get("type") == "exception":
             seen_exception = True
-        faulted_files = {entry["file"] for entry in (sc.get("plan") or []) if entry.get("op", 0) == index}
-        if index in faulted_ops:
+        faulted_files = {entry["file"] for entry in (sc.get("plan") or []) if entry.get("op", 0) == index} | set(sc.get("natural_files") or [])
+        if index in faulted_ops or sc.get("natural_files"):
             # only the file level can be judged, and only with --continue-on-error:
             # every file without a fault must still equal its solo run
             if not (op["kind"].startswith("cli") and op.get("coe") and len(op["docs"]) >= 2):
